@@ -175,6 +175,40 @@ def wf_multi(n_done: int, with_waiter: str | None = None) -> type:
     return make_workflow("Multi", steps)
 
 
+def wf_equal(k: int, w: int, ext: int = 0) -> type:
+    """k (+ext external) field-for-field equal events for a step with fewer workers: equal events wait in the
+    step queue together"""
+    async def start(self, ctx, ev, inv):  # noqa: ANN001
+        for _ in range(k):
+            ctx.send_event(Work(uid=0))
+        return None
+
+    async def work(self, ctx, ev, inv):  # noqa: ANN001
+        await gate(f"work#{len([i for i in inv_log if i is not None])}")
+        return Done(uid=0)
+
+    inv_log: list[Any] = []
+
+    async def fin(self, ctx, ev, inv):  # noqa: ANN001
+        r = ctx.collect_events(ev, [Done] * (k + ext))
+        if r is None:
+            return None
+        return StopEvent(result=len(r))
+
+    return make_workflow("Equal", [
+        make_step("start", [StartEvent], [Work, None], start),
+        make_step("work", [Work], [Done], work, num_workers=w),
+        make_step("fin", [Done], [StopEvent, None], fin, num_workers=1),
+    ])
+
+
+def equal_ext_scripts(n: int) -> Any:
+    def mk(state: dict[str, Any]) -> list[list[Action]]:
+        return [[Action(f"ext Work0 (equal) #{i}", lambda: state["hd"].ctx.send_event(Work(uid=0)))] for i in range(n)]
+
+    return mk
+
+
 def ext_scripts(state: dict[str, Any]) -> list[list[Action]]:
     return [
         [Action("ext B5 broadcast", lambda: state["hd"].ctx.send_event(B(uid=5)))],
@@ -221,6 +255,11 @@ def specs(tier: str) -> list[Spec]:
         # Done: 4 base + sw:Resp8 (208) + sr 8 + sw wait (109) + sr 9 = 8
         Spec("waiter_requirements", {}, lambda: wf_multi(8, "req"), scripts=req_waiter_scripts,
              max_dev=(2 if q else 4), tags=("waiter", "requirements")),
+        # field-for-field equal events (distinct objects) queued behind a saturated step
+        Spec("equal_events(k=3,w=1)", {}, lambda: wf_equal(3, 1), tags=("equal",)),
+        Spec("equal_events(k=4,w=2)", {}, lambda: wf_equal(4, 2), max_dev=(3 if q else None), tags=("equal",)),
+        Spec("equal_events_ext(k=2,w=1,ext=2)", {}, lambda: wf_equal(2, 1, 2), scripts=equal_ext_scripts(2),
+             max_dev=(3 if q else None), tags=("equal",)),
     ]
     return sp
 
@@ -242,7 +281,7 @@ ORACLE = _oracle()
 
 RULE = ("multi-accept workflow graphs (overlapping exact types, a subclass event, targeted and broadcast "
         "ctx.send_event, returned events, external broadcast/targeted sends, a waiting step that also accepts the "
-        "awaited type) x all schedules within the stated deviation bound; per processed add-event tick the runner "
+        "awaited type, field-for-field equal events queued behind a saturated step) x all schedules within the stated deviation bound; per processed add-event tick the runner "
         "state delta is compared with a dict router, and body entries / UnhandledEvent reports are counted at the "
         "end (runs end only after a fan-in of every delivery); non-trivial = at least one schedule deviation")
 
